@@ -17,14 +17,13 @@ def hello : Program :=
     procs := [mainOf (.seq [.call "put" [n 104, n 0], .syscall 0 [.bin .plus (n 3) (n 4)]])] }
 
 example : run hello noInput 100 =
-    .defined { events := [.out none 104], stdinConsumed := 0, exit := 7, calls := ["main"], returned := false,
-               callTree := ["main", "(", "|", "|", ")", "(", "(", "|", ")", "|", ")"] } := by decide +kernel
+    .defined { events := [.out none 104], stdinConsumed := 0, exit := 7, calls := ["main"], returned := false } := by decide +kernel
 
 -- Returning from `main` and `stop` both exit with 0.
 example : run { globals := [], procs := [mainOf .skip] } noInput 10 =
-    .defined { events := [], stdinConsumed := 0, exit := 0, calls := ["main"], returned := true, callTree := ["main"] } := by decide +kernel
+    .defined { events := [], stdinConsumed := 0, exit := 0, calls := ["main"], returned := true } := by decide +kernel
 example : run { globals := [], procs := [mainOf (.seq [.stop, .syscall 0 [n 5]])] } noInput 10 =
-    .defined { events := [], stdinConsumed := 0, exit := 0, calls := ["main"], returned := false, callTree := ["main"] } := by decide +kernel
+    .defined { events := [], stdinConsumed := 0, exit := 0, calls := ["main"], returned := false } := by decide +kernel
 
 /-- `func fac(val n) is if n = 0 then return 1 else return mul(n, fac(n - 1))` with `mul` by repeated
     addition; `proc main() is 0(fac(4))` exits with 24. -/
@@ -51,8 +50,7 @@ def echo2 : Program :=
 
 example : run echo2 { stdin := [65] } 100 =
     .defined { events := [.inp none 65, .out none 65, .inp none 255, .out none 1], stdinConsumed := 1,
-               exit := 0, calls := ["main"], returned := true,
-               callTree := ["main", "(", "(", "|", ")", "|", "|", ")", "(", "(", "(", "|", ")", "|", ")", "|", "|", ")"] } := by decide +kernel
+               exit := 0, calls := ["main"], returned := true } := by decide +kernel
 
 /-- Global arrays, array formals (by reference) and packed strings:
     `array a[2]; proc set(array v, val i) is v[i] := i + 7; proc main() is { set(a, 1); 0(a[1] + len("abc")) }`
